@@ -14,7 +14,7 @@ use common::*;
 use verif_harness::*;
 
 fn path_text(p: &[V]) -> String {
-    format!("[{}]", p.iter().map(|k| k.text()).collect::<Vec<_>>().join(","))
+    format!("[{}]", p.iter().map(|k| k.text()).collect::<Vec<_>>().join(", "))
 }
 fn path_expr(p: &[V]) -> String {
     if p.is_empty() {
@@ -128,15 +128,15 @@ impl Ctx {
             self.law(via_cli, "getpath", &path_expr(&p), v, &idv, &p, &V::Null);
             self.law(via_cli, "setget", &format!("setpath({0}; getpath({0}))", path_text(&p)), v, &idv, &p, &V::Null);
             self.law(via_cli, "setget", &format!("{0} = {0}", path_expr(&p)), v, &idv, &p, &V::Null);
-            self.law(via_cli, "assign", &format!("{} = {}", path_expr(&p), nv.text()), v, &idv, &p, &nv);
-            self.law(via_cli, "assign", &format!("{} |= {}", path_expr(&p), nv.text()), v, &idv, &p, &nv);
-            self.law(via_cli, "assign", &format!("setpath({}; {})", path_text(&p), nv.text()), v, &idv, &p, &nv);
+            self.law(via_cli, "assign", &format!("{} = {}", path_expr(&p), nv.text_spaced()), v, &idv, &p, &nv);
+            self.law(via_cli, "assign", &format!("{} |= {}", path_expr(&p), nv.text_spaced()), v, &idv, &p, &nv);
+            self.law(via_cli, "assign", &format!("setpath({}; {})", path_text(&p), nv.text_spaced()), v, &idv, &p, &nv);
             // a fresh key beside an existing member
             if let Some(V::Str(_)) = p.last() {
                 let mut q = p.clone();
                 q.pop();
                 q.push(V::s("zz"));
-                self.law(via_cli, "assign", &format!("{} = {}", path_expr(&q), nv.text()), v, &idv, &q, &nv);
+                self.law(via_cli, "assign", &format!("{} = {}", path_expr(&q), nv.text_spaced()), v, &idv, &q, &nv);
             }
         }
     }
